@@ -107,6 +107,7 @@ Proof.
       * split; [exact Z0 | exact I0].
 Qed.
 
+(* after the repair no integrality is needed: a discrete step from any position inside the bounds stays inside *)
 Lemma qmax_cases x y : (x < y /\ qmax x y = y) \/ (y <= x /\ qmax x y = x).
 Proof.
   unfold qmax. destruct (qltb x y) eqn:E.
@@ -119,6 +120,30 @@ Proof.
   - left. split; [apply qltb_lt; exact E | reflexivity].
   - right. split; [apply qltb_ge; exact E | reflexivity].
 Qed.
+Lemma disc_new_tap_in_bounds t lo up vm x :
+  t_min t <= x <= t_max t -> t_min t <= disc_new_tap t lo up vm x <= t_max t.
+Proof.
+  intros [H1 H2]. unfold disc_new_tap. set (i := disc_incr t lo up vm (Some x)).
+  destruct (qltb 0 i) eqn:E1.
+  - apply qltb_lt in E1. destruct (qmin_cases (qadd x i) (t_max t)) as [[A ->]|[A ->]]; qnorm; split; lra.
+  - apply qltb_ge in E1. destruct (qltb i 0) eqn:E2.
+    + apply qltb_lt in E2. destruct (qmax_cases (qadd x i) (t_min t)) as [[A ->]|[A ->]]; qnorm; split; lra.
+    + apply qltb_ge in E2. qnorm. split; lra.
+Qed.
+(* and from an integral position strictly inside it is exactly one step (the repair changes nothing there) *)
+Lemma disc_new_tap_integral t lo up vm x :
+  integral x -> integral (t_min t) -> integral (t_max t) -> t_min t <= x <= t_max t ->
+  disc_new_tap t lo up vm x == x + disc_incr t lo up vm (Some x).
+Proof.
+  intros Ix Imin Imax Hb. destruct (disc_incr_in_bounds t lo up vm x Ix Imin Imax Hb) as [[B1 B2] _].
+  unfold disc_new_tap. set (i := disc_incr t lo up vm (Some x)) in *.
+  destruct (qltb 0 i) eqn:E1.
+  - destruct (qmin_cases (qadd x i) (t_max t)) as [[A ->]|[A ->]]; qnorm; [lra | reflexivity].
+  - destruct (qltb i 0) eqn:E2.
+    + destruct (qmax_cases (qadd x i) (t_min t)) as [[A ->]|[A ->]]; qnorm; [lra | reflexivity].
+    + qnorm. reflexivity.
+Qed.
+
 Lemma clip_in x lo hi : lo <= hi -> lo <= clip x lo hi <= hi.
 Proof.
   intros H. unfold clip.
@@ -353,7 +378,7 @@ Definition last_run_vars (t : list (ev cst)) : option slots :=
 Definition feq_opt (a b : F) : bool :=
   match a, b with Some x, Some y => qeqb x y | None, None => true | _, _ => false end.
 Definition stale_on_return (cs : list entry) (s : cst) (k : nat) : bool :=
-  match run_net 30 false true cs s with
+  match run_net_old 30 false true cs s with
   | Some (Ok, s', t) => match last_run_vars t with Some v => negb (feq_opt (get k v) (get k (vars s'))) | None => false end
   | _ => false
   end.
@@ -362,11 +387,11 @@ Proof. vm_compute. reflexivity. Qed.
 Lemma fresh_results_refuted :
   exists (cs : list entry) (s s' : cst) t,
     G13 (match ctrl_variables _ cs with Some (co, _) => co | None => [] end) = true /\
-    run_net 30 false true cs s = Some (Ok, s', t) /\
+    run_net_old 30 false true cs s = Some (Ok, s', t) /\
     exists v, last_run_vars t = Some v /\ feq_opt (get 7 v) (get 7 (vars s')) = false.
 Proof.
   exists w3_cs, w3_state. pose proof stale_check as H. unfold stale_on_return in H.
-  destruct (run_net 30 false true w3_cs w3_state) as [[[o s'] t]|]; [|discriminate].
+  destruct (run_net_old 30 false true w3_cs w3_state) as [[[o s'] t]|]; [|discriminate].
   destruct o; try discriminate.
   exists s', t. split; [reflexivity|]. split; [reflexivity|].
   destruct (last_run_vars t) as [v|]; [|discriminate]. exists v. split; [reflexivity|].
@@ -400,3 +425,16 @@ Proof.
     {| vars := [(1%nat, Some 0)]; res := [(2%nat, Some (98#100))]; applied := []; stream := [] |}.
   split; reflexivity.
 Qed.
+
+(* after the repair every modelled controller kind has a pure is_converged: the freshness theorem applies to all of them *)
+Lemma mk_ctrl_pure c k : forall s, snd (c_conv (mk_ctrl c k) s) = s.
+Proof. destruct k; reflexivity. Qed.
+(* the same CharacteristicControl run with the repaired controller: the element value on return is the one the last
+   calculation has seen *)
+Definition fresh_on_return (cs : list entry) (s : cst) (k : nat) : bool :=
+  match run_net 30 false true cs s with
+  | Some (Ok, s', t) => match last_run_vars t with Some v => feq_opt (get k v) (get k (vars s')) | None => false end
+  | _ => false
+  end.
+Lemma fresh_check : fresh_on_return w3_cs w3_state 7 = true.
+Proof. vm_compute. reflexivity. Qed.
